@@ -17,7 +17,7 @@ LEMMAS = {}
 class Contract:
     def __init__(self, qualname, params=None, requires=None, ensures=None, raises=None, raises_any=False, modifies=(),
                  returns=None, invariants=None, receivers=None, serves=(), inline=False, assumed=False, note="",
-                 variants=None, fresh_result=False, total=False, frame_only=False, fresh_params=()):
+                 variants=None, fresh_result=False, total=False, frame_only=False, fresh_params=(), inline_at_calls=False):
         self.qualname = qualname
         self.params = params or {}
         self.requires, self.ensures = requires, ensures
@@ -34,6 +34,7 @@ class Contract:
         self.variants = variants              # list of dicts overriding params (family members)
         self.fresh_result = fresh_result
         self.total = total
+        self.inline_at_calls = inline_at_calls
         self.frame_only = frame_only          # only frame obligations (loops get the trivial invariant, no ensures)
         self.fresh_params = tuple(fresh_params)  # parameters that are fresh objects (self of __init__)
 
